@@ -102,5 +102,12 @@ ReportFails(X) ==
   {<<"KNOWN_F20", idx[j]>> : j \in {j \in 1 .. Len(idx) : j <= Len(X.report) /\ BlockOKx(X, X.acts[idx[j]], X.report[j], TRUE)
                                                                               /\ ~BlockOK(X, X.acts[idx[j]], X.report[j])}}
 
-RenderFails(X) == DumpFails(X) \cup JsonFails(X) \cup ReportFails(X)
+(* --- header: the JSON header is the record header; the report header shows title, seats, ballots, quota, rule and arithmetic --- *)
+HeaderFails(X) ==
+  (IF ~X.json_ok \/ X.jhdr = X.hdr THEN {} ELSE {<<"json_header", 0>>}) \cup
+  (IF /\ X.rhdr.title = X.hdr.title /\ X.rhdr.seats = X.hdr.seats /\ X.rhdr.nballots = X.hdr.nballots /\ X.rhdr.quota = X.hdr.quota
+      /\ X.rhdr.rule_info = X.rinfo.rule_info /\ X.rhdr.arithmetic_info = X.rinfo.arithmetic_info
+   THEN {} ELSE {<<"report_header", 0>>})
+
+RenderFails(X) == DumpFails(X) \cup JsonFails(X) \cup ReportFails(X) \cup HeaderFails(X)
 =============================================================================
